@@ -391,8 +391,9 @@ class Effects(object):
                         if after and isinstance(c, ClassInfo) and name in c.members:
                             rm = P.resolve_member(c.members[name])
                             if rm and rm[0] == 'func':
-                                return [('func', rm[1], {'method': 'super'})]
-                    return [('external', 'builtin.' + name, {'recv': ('param', fi.params[0])})]
+                                return [('func', rm[1], {'method': 'super', 'super_obj': recv[2][1] if len(recv[2]) == 2 else None})]
+                    # super(Class, obj).method(...) acts on obj (the second argument), plain super() on the method's own receiver
+                    return [('external', 'builtin.' + name, {'recv': recv[2][1] if len(recv[2]) == 2 else ('param', fi.params[0])})]
                 return [('unknown', name, None)]
             rt = self.type_of(recv, fi)
             if rt in TYPE_CLASSES:
@@ -700,7 +701,7 @@ class Effects(object):
                 return FRESH
             binds = self.arg_bindings(call, g, meta)
             if (meta or {}).get('method') == 'super' and fi.params:
-                binds[g.params[0]] = ('param', fi.params[0]) if g.params else None
+                binds[g.params[0]] = ((meta or {}).get('super_obj') or ('param', fi.params[0])) if g.params else None
             s = self.summary(g, self.const_config(g, binds))
             return self.subst(s.ret, binds, g, ctx)
         if kind == 'ctor':
@@ -1028,7 +1029,7 @@ class Effects(object):
                 self.calls_resolved += 1
                 binds = self.arg_bindings(call, g, meta)
                 if (meta or {}).get('method') == 'super' and fi.params and g.params:
-                    binds[g.params[0]] = ('param', fi.params[0])
+                    binds[g.params[0]] = (meta or {}).get('super_obj') or ('param', fi.params[0])
                 cs = self.summary(g, self.const_config(g, binds))
                 for q, wit in cs.mutates.items():
                     a = binds.get(q)
